@@ -42,6 +42,14 @@ class IdRules:
         self.getter = fx.fn(NS + 'IDManager::GetHeartBeater', 'id_manager.cpp')
         self.setid = self.method('SetID')
         self.paths = {f['key']: eng.paths(f) for f in self.fns}
+        # a heartbeat created with a custom deleter: shared_ptr<size_t>{new size_t{id}, deleter}.  The deleter runs exactly once,
+        # when the last owner drops the control block (after the heartbeat has expired): it may be the one place that frees the ID
+        self.deleter = None
+        for p in self.paths[self.setid['key']]['paths']:
+            for e in p.events:
+                if e['kind'] == 'construct' and (e.get('record') or '').startswith('std::shared_ptr<') and len(e.get('args') or ()) == 2 and \
+                        isinstance(e['args'][1], tuple) and e['args'][1] and e['args'][1][0] == 'lambda':
+                    self.deleter = fx.functions.get(e['args'][1][1])
 
     def one(self, c, what):
         if len(c) != 1:
@@ -112,6 +120,8 @@ class IdRules:
                 for e in p.events:
                     if e['kind'] == 'atomic' and not self.is_flag(e['obj']) and isinstance(e['obj'], tuple) and e['obj'][0] == 'deref' \
                             and f['tu'] == 'id_manager.cpp':
+                        if self.deleter is not None and f['key'] == self.deleter['key']:
+                            continue
                         if f['key'] not in (self.getter['key'], self.dtor['key']):
                             # another member of the ID classes that writes an atomic object through a pointer (a deleter, a reset
                             # helper ...): the only atomic objects here are the reservation flags
@@ -165,6 +175,13 @@ class IdRules:
                 elif e['kind'] == 'member_dtor' and e.get('member') == self.idf:
                     expire = expire or e
             frees = [e for e in self.flag_events(p) if is_write(e)]
+            if self.deleter is not None:
+                # the deleter frees the ID: the destructor itself must not (that would be a second release) and only has to drop the heartbeat
+                sink.emit('C14.FREE', 'ok' if not frees else 'violated', '~HeartBeater leaves the release of the ID to the deleter of the heartbeat', loc,
+                          'no flag write in the destructor' if not frees else 'the destructor clears the flag and the deleter clears it again: the second release frees an ID that was handed out meanwhile')
+                sink.emit('C15.ORDER', 'ok' if expire is not None else 'unsupported', '~HeartBeater expires the heartbeat before it frees the ID', loc,
+                          'the deleter runs after the last owner dropped the control block (use_count() == 0, expired() == true)')
+                continue
             if self.bitmap:
                 fid = self.flag_id(frees[0]['obj'][2]) if frees else None
                 v = frees[0].get('value') if frees else None
@@ -200,6 +217,8 @@ class IdRules:
                 and bool(reads) and reads[0]['seq'] < expire['seq']
             sink.emit('C05.WHO', 'ok' if good else 'violated', '~HeartBeater frees the flag of its own ID', '%s:%s' % (f['file'], free['line']),
                       'index %s' % show(idx))
+        if self.deleter is not None:
+            self.deleter_rules()
         # claim side: acquire
         for p in self.paths[self.getter['key']]['paths']:
             for e in self.flag_events(p):
@@ -220,6 +239,11 @@ class IdRules:
             asg = [e for e in p.events if e['kind'] == 'call' and e.get('obj') == self.id_obj() and e['name'] == 'operator=']
             good = len(asg) == 1 and asg[0]['args'] and isinstance(asg[0]['args'][0], tuple) and asg[0]['args'][0][0] == 'app' and \
                 'make_shared' in asg[0]['args'][0][1] and asg[0]['args'][0][2] == (S('p:' + self.setid['params'][0]['name']),)
+            if not good and self.deleter is not None and len(asg) == 1 and asg[0]['args']:
+                # shared_ptr<size_t>{new size_t{id}, deleter}
+                a = asg[0]['args'][0]
+                news = [e for e in p.events if e['kind'] == 'new' and e.get('init') == S('p:' + self.setid['params'][0]['name'])]
+                good = isinstance(a, tuple) and a[0] == 'obj' and len(a[3]) == 2 and bool(news) and a[3][0] == news[0]['result']
             self.sink.emit('C15.LIFE', 'ok' if good else 'violated', 'SetID stores make_shared(id)', '%s:%s' % (self.setid['file'], self.setid['line']),
                            'heartbeat = fresh control block whose value is the ID')
         gh = self.method('GetHeartBeat')
@@ -241,6 +265,40 @@ class IdRules:
         copyable = [m for m in self.hb_rec['methods'] if m['kind'] in ('copy_ctor', 'move_ctor', 'copy_assign', 'move_assign') and not m['deleted']]
         self.sink.emit('C15.LIFE', 'ok' if not copyable else 'violated', 'HeartBeater is neither copyable nor movable', '%s:%s' % (self.hb_rec['file'], self.hb_rec['line']),
                        'no second owner of the control block can exist' if not copyable else 'non-deleted: %s' % [m['kind'] for m in copyable])
+
+    def deleter_rules(self):
+        """the custom deleter of the heartbeat is the release of the ID: on every path it reads the ID from the object it is given,
+        clears exactly that flag once with release semantics and deletes the object; nothing is read from the object afterwards"""
+        sink, d = self.sink, self.deleter
+        loc = '%s:%s' % (d['file'], d['line'])
+        if self.bitmap or len(d['params']) != 1:
+            sink.unsup('C14.FREE', 'deleter of the heartbeat', loc, 'deleter shape not supported (bitmap mode / parameters)')
+            return
+        ptr = S('p:' + d['params'][0]['name'])
+        res = self.eng.paths(d)
+        if not res['paths']:
+            sink.unsup('C14.FREE', 'deleter of the heartbeat', loc, 'no complete path')
+            return
+        for p in res['paths']:
+            frees = [e for e in self.flag_events(p) if is_write(e)]
+            other = [e for e in p.events if e['kind'] == 'atomic' and is_write(e) and not self.is_flag(e['obj'])]
+            good = len(frees) == 1 and not other and frees[0]['op'] == 'store' and is_const(frees[0]['value']) and frees[0]['value'][1] == 0
+            sink.emit('C14.FREE', 'ok' if good else 'violated', 'the deleter of the heartbeat clears the reservation flag exactly once', loc,
+                      'store(false) on every path of the deleter' if good else 'found %s' % [(e['op'], show(e.get('value'))) for e in frees + other])
+            if not good:
+                continue
+            free = frees[0]
+            o = free['orders'][0]
+            sink.emit('C15.SYNC', 'ok' if has_release(o) else 'violated', 'deleter FREE store order=%s' % o, '%s:%s' % (d['file'], free['line']),
+                      'the expiry must happen-before the claimer\'s use of the ID: FREE needs release semantics')
+            dels = [e for e in p.events if e['kind'] == 'delete']
+            reads = [e for e in p.events if e['kind'] == 'read' and e['path'] == ('deref', ptr)]
+            idx = self.unext(free['obj'][2])
+            own = idx == S(show(('deref', ptr))) and bool(reads) and (not dels or reads[0]['seq'] < dels[0]['seq'])
+            sink.emit('C05.WHO', 'ok' if own else 'violated', 'the deleter frees the flag of the ID stored in the heartbeat', '%s:%s' % (d['file'], free['line']),
+                      'index %s, read before the object is deleted' % show(idx) if own else 'index %s is not the value of the heartbeat object read before it is deleted' % show(idx))
+            good = len(dels) == 1 and dels[0]['value'] == ptr
+            sink.emit('C15.LIFE', 'ok' if good else 'violated', 'the deleter deletes the heartbeat object once', loc, '')
 
     # ------------------------------------------------------------------ C05
     def in_range(self, idx, p):
@@ -338,6 +396,8 @@ class IdRules:
         for g in self.fx.functions.values():
             if g['tu'] != 'id_manager.cpp' or g['key'] in (f['key'], self.dtor['key']) or self.eng.private_helper(g):
                 continue     # helpers are analysed inside their callers
+            if self.deleter is not None and g['key'] == self.deleter['key']:
+                continue     # judged by deleter_rules()
             if not g['file'].endswith('id_manager.cpp') or self.eng.is_spin_function(g) or g.get('parent') in (f['key'], self.dtor['key']):
                 continue     # instantiations of library templates (the spin helper) and lambdas of the two writers are covered there
             for p in self.eng.paths(g)['paths']:
